@@ -162,6 +162,15 @@ def P18(m, R):
                                 collect(s.body)
                             elif v is False:
                                 collect(s.orelse)
+                            elif isinstance(s.test, ast.BoolOp) and isinstance(s.test.op, ast.And) and not s.orelse:
+                                # flag conjuncts decided, the rest stays as the condition
+                                rest_ = [c for c in s.test.values if eval_guard(c, flag_valuation({'extend_formatting': extend})) is not True]
+                                if any(eval_guard(c, flag_valuation({'extend_formatting': extend})) is False for c in s.test.values):
+                                    continue
+                                if len(rest_) == 1:
+                                    stmts.append(ast.If(test=rest_[0], body=s.body, orelse=[]))
+                                else:
+                                    stmts.append(s)
                             else:
                                 stmts.append(s)
                         else:
